@@ -48,7 +48,9 @@ func flipHexByte(s string) string {
 	return hex.EncodeToString(b)
 }
 
-func resign(w *relayWorld, r *pocketTypes.Relay, client crypto.PrivateKey) { rf.SignRelayProof(&r.Proof, client) }
+func resign(w *relayWorld, r *pocketTypes.Relay, client crypto.PrivateKey) {
+	rf.SignRelayProof(&r.Proof, client)
+}
 
 var c35Alterations = []c35Alteration{
 	{name: "none", valid: true},
@@ -91,7 +93,9 @@ var c35Alterations = []c35Alteration{
 
 	// ---- client signature
 	{name: "client-signature-by-unnamed-key", post: func(w *relayWorld, e *c35Env, r *pocketTypes.Relay) { resign(w, r, w.rogue) }},
-	{name: "client-signature-corrupted", post: func(w *relayWorld, e *c35Env, r *pocketTypes.Relay) { r.Proof.Signature = flipHexByte(r.Proof.Signature) }},
+	{name: "client-signature-corrupted", post: func(w *relayWorld, e *c35Env, r *pocketTypes.Relay) {
+		r.Proof.Signature = flipHexByte(r.Proof.Signature)
+	}},
 	{name: "client-signature-over-other-entropy", post: func(w *relayWorld, e *c35Env, r *pocketTypes.Relay) { r.Proof.Entropy++ }},
 
 	// ---- request hash / payload
@@ -191,7 +195,11 @@ func TestC35(t *testing.T) {
 				c.AddExtra("relays_checked", 1)
 				if !alt.valid {
 					if err == nil || resp != nil {
-						c.Violation("C35/served/"+alt.name, "%s: the altered relay was answered (response signature %.16s...)", desc, respSig(resp))
+						// (forwarding and recording are consequences of serving: one signature per served alteration)
+						if c.Violation("C35/served/"+alt.name, "%s: the altered relay was answered (response signature %.16s...), backend calls +%d, evidence %s -> %s",
+							desc, respSig(resp), w.backend.Count()-hits, before[1], after[1]) {
+							continue
+						}
 					}
 					if w.backend.Count() != hits {
 						c.Violation("C35/forwarded/"+alt.name, "%s: the altered relay was forwarded to the hosted chain", desc)
